@@ -7,6 +7,7 @@ import (
 	"os"
 	"path/filepath"
 	"sync"
+	"time"
 
 	sqlite3 "github.com/mattn/go-sqlite3"
 	command "github.com/rqlite/rqlite/v10/command/proto"
@@ -31,6 +32,16 @@ func init() {
 	c21cContentNative = func(d *DB) c21cState { return c21cContentOfFile(d.path) }
 	c21cLoadNative = c21cLoadReal
 	c21cPoolInTxNative = c21cPoolInTxReal
+	c21cRunDumpNative = func(d *DB, out *c21cWriter, filter []string) (error, bool) {
+		done := make(chan error, 1)
+		go func() { done <- d.Dump(out, filter...) }()
+		select {
+		case err := <-done:
+			return err, false
+		case <-time.After(5 * time.Second):
+			return nil, true
+		}
+	}
 }
 
 func c21cExecAll(d *DB, sqls []string, tx bool) {
@@ -200,8 +211,21 @@ func (c21cDrv) Open(dsn string) (driver.Conn, error) {
 type c21cDConn struct{ *sqlite3.SQLiteConn }
 
 func (c *c21cDConn) QueryContext(ctx context.Context, query string, args []driver.NamedValue) (driver.Rows, error) {
-	if err := c21cW.beforeStatement(); err != nil {
-		return nil, err
+	failNow, failLater := c21cW.beforeStatement()
+	if failNow != nil {
+		return nil, failNow
 	}
-	return c.SQLiteConn.QueryContext(ctx, query, args)
+	rows, err := c.SQLiteConn.QueryContext(ctx, query, args)
+	if err != nil || failLater == nil {
+		return rows, err
+	}
+	return &c21cDRows{rows, failLater}, nil
 }
+
+// c21cDRows: the cursor of a statement that fails when its first row is fetched
+type c21cDRows struct {
+	driver.Rows
+	err error
+}
+
+func (r *c21cDRows) Next(dest []driver.Value) error { return r.err }
